@@ -10,7 +10,7 @@ macro_rules! rlp_arm {
     ($modname:ident, $krate:ident, $label:literal) => {
         pub mod $modname {
             use super::*;
-            use $krate::{Decodable, Encodable};
+            use $krate::{Decodable, Encodable, MaxEncodedLenAssoc};
             use ruint::Uint;
 
             pub const FLAVOURS: u32 = 4;
@@ -94,6 +94,11 @@ macro_rules! rlp_arm {
             pub fn encode<const B: usize, const L: usize>(ws: &mut WriteSeam, p: &Plan, vals: &[Num]) -> EncResult {
                 let us: Vec<Uint<B, L>> = vals.iter().map(num::to_uint).collect();
                 let mut len_ok = true;
+                // the advertised maximum must cover the largest value of the type
+                let max_len = refrlp::enc_uint(&num::max_value(B)).len();
+                if <Uint<B, L> as MaxEncodedLenAssoc>::LEN < max_len {
+                    ws.ctx.violate("LEN", format!(concat!($label, " MaxEncodedLenAssoc::LEN = {} < {} bytes needed for Uint<{}>::MAX"), <Uint<B, L> as MaxEncodedLenAssoc>::LEN, max_len, B));
+                }
                 for (u, v) in us.iter().zip(vals) {
                     let want = refrlp::enc_uint(v);
                     if u.length() != want.len() {
